@@ -263,12 +263,56 @@ def unit_file(arg):
     return part
 
 
+PROJECT_TEXTS = [
+    'import pk.sub\npk.sub\npk.sub.s1\npk\n', 'import pk.sub as ps\nps.s1\nps\n', 'import m1\nm1.K1\nm1.K1.attr\nm1.fn1\n',
+    'from pk import sub\nsub.s2\nsub\n', 'from pk import *\ns1\np0\n', 'import os.path\nos.path\nos.path.join\nos\n', 'import mstar2\nmstar2.x1\nmstar2.zz2\n',
+]
+
+
+def unit_project_positions(_):
+    """go-to-definition through imports: every result must name an existing line of an existing file
+    (start of the file for a module), and an identifier token when it is a binding"""
+    from . import namecheck as nc
+    part = Part()
+    Pg = Project([nc.PROJECT_DIR])
+    fn = os.path.join(nc.PROJECT_DIR, 'x.py')
+    for text in PROJECT_TEXTS:
+        part.count('evaluations')
+        tree = ast.parse(text)
+        for n in ast.walk(tree):
+            if isinstance(n, (ast.Name, ast.Attribute)) and isinstance(n.ctx, ast.Load):
+                pos = (n.end_lineno, n.end_col_offset)
+                try:
+                    locs = location(Pg, text, pos, fn)
+                except Exception:
+                    part.count('location_crashes')
+                    continue
+                flat = []
+                for l in locs:
+                    flat += l if isinstance(l, list) else [l]
+                for l in flat:
+                    part.count('location_positions')
+                    f, (ln, col) = l.get('file'), tuple(l['loc'])
+                    src = text if f == fn else (open(f, encoding='utf-8').read() if f and os.path.exists(f) else None)
+                    if src is None:
+                        part.violation('file-does-not-exist:location:through-import', 'location() at %s in %r names the file %r' % (pos, text, f), {'kind': 'project-text', 'text': text})
+                        continue
+                    nlines = len(src.split('\n'))
+                    if not (1 <= ln <= nlines) or col < 0:
+                        part.violation('line-outside-file:location:through-import', 'location() at %s in %r reports (%d, %d) in %s which has %d lines' % (
+                            pos, text, ln, col, os.path.basename(f), nlines), {'kind': 'project-text', 'text': text})
+    part.outcome('project-positions')
+    return part
+
+
 def _dispatch(u):
     return u[0](u[1])
 
 
 def replay(w):
     p = Part()
+    if w['kind'] == 'project-text':
+        return [(v['sig'], v['what']) for v in unit_project_positions(None).violations]
     if w['kind'] == 'text':
         return [(s + ':' + w['label'].split('/')[0], wh) for s, wh in check_text(w['text'], '/gen/x.py', w['label'], p, with_location=True)]
     return check_text(corpus.read(w['path']), w['path'], os.path.basename(w['path']), p, with_location=w.get('loc', False))
@@ -283,6 +327,7 @@ def run(ctx):
         # location() on every read is expensive: small repository files (all repository files on thorough)
         with_loc = f in small_repo or (not ctx.quick and f in corpus.repo_files())
         units.append((unit_file, (f, with_loc)))
+    units.append((unit_project_positions, None))
     ctx.pmap(_dispatch, ctx.shuffled(units), chunksize=1)
     c = ctx.counters
     ctx.counters['distinct_nontrivial'] = int(c['generated_sources']) + int(c['files'])
